@@ -2,7 +2,10 @@ package main
 
 // Per-property case generators.
 
-import "fmt"
+import (
+	"fmt"
+	"sort"
+)
 
 func generate(prop string, seed int64, n int) []Group {
 	g := newGen(seed*1000003 + int64(len(prop)))
@@ -169,6 +172,12 @@ func genC20(g *Gen, i int) Group {
 // method values of one method, instantiations of one generic function, top-level functions)
 // registered under different names, next to ordinary synthesised registrations.
 func genC04(g *Gen, i int) Group {
+	if i%5 == 4 {
+		if i%10 == 9 && i%4 == 1 {
+			return g.aliasAfterBuildCase(i)
+		}
+		return g.multiOutCase(i)
+	}
 	var regs []*Reg
 	if i%3 == 0 {
 		kind := 1 + g.n(4)
@@ -332,6 +341,12 @@ func genContainer(g *Gen, prop string, i int) Group {
 	regs := g.RegSet(cfg)
 	if prop == "C07" && i%7 == 3 {
 		return g.aliasRemovalCase(i)
+	}
+	if (prop == "C01" || prop == "C02" || prop == "C03" || prop == "C10" || prop == "C07") && i%8 == 6 {
+		if i%16 == 14 {
+			return g.aliasAfterBuildCase(i)
+		}
+		return g.multiOutCase(i)
 	}
 	if (prop == "C01" || prop == "C02" || prop == "C03" || prop == "C10") && i%6 == 5 {
 		life := map[string]int{"C01": Singleton, "C02": Scoped, "C03": Transient, "C10": g.life([3]int{1, 1, 1})}[prop]
@@ -557,6 +572,15 @@ func (g *Gen) aliasGroupFamily(life int) []*Reg {
 func genC17(g *Gen, i int) Group {
 	if i%9 == 4 {
 		return g.aliasRemovalCase(i)
+	}
+	if i%9 == 6 {
+		return g.multiOutCase(i)
+	}
+	if i%9 == 8 {
+		return g.aliasAfterBuildCase(i)
+	}
+	if i%9 == 2 || i%9 == 7 {
+		return g.snapshotTwins(i)
 	}
 	cfg := defaultCfg()
 	cfg.NRegs = 4 + g.n(7)
@@ -908,4 +932,280 @@ func (g *Gen) wideTree(regs []*Reg, before []Op) []Op {
 		ops = append(ops, Op{Kind: "close", P: 0, H: h})
 	}
 	return ops
+}
+
+// multiOutCase: one registration with several outputs (a result object with named and group fields, or a
+// constructor with several return values, sometimes with Name or Group), one identity of which is removed -
+// and sometimes registered again by another constructor - before or after a Build. The siblings stay
+// resolvable, the removed identity is gone or belongs to the newcomer, group fields are members of their
+// group, and a provider built before the change keeps its own view.
+func (g *Gen) multiOutCase(i int) Group {
+	life := g.life([3]int{2, 3, 2})
+	tys := g.rnd.Perm(8)
+	pick := func(k int) int {
+		t := tys[k]
+		if g.p(0.4) {
+			t += 8
+		}
+		return t
+	}
+	m := &Reg{ID: g.nextRid, Life: life}
+	g.nextRid++
+	if g.p(0.55) {
+		fs := []Field{{Ty: pick(0)}, {Ty: pick(1), Name: 1 + g.n(2)}, {Ty: pick(2)}}
+		if g.p(0.6) {
+			grp := 1 + g.n(2)
+			fs = append(fs, Field{Ty: pick(3), Group: grp})
+			if g.p(0.5) {
+				fs = append(fs, Field{Ty: fs[3].Ty, Group: grp}) // a second member of the same group from the same constructor
+			}
+		}
+		g.rnd.Shuffle(len(fs), func(a, b int) { fs[a], fs[b] = fs[b], fs[a] })
+		m.Form = Form{Kind: "result", Fields: fs, Err: g.p(0.3)}
+		for _, f := range fs {
+			m.Dyn = append(m.Dyn, f.Ty)
+			m.CFail = append(m.CFail, false)
+		}
+	} else {
+		k := 2 + g.n(2)
+		m.Form = Form{Kind: "ctor", Err: g.p(0.3)}
+		for j := 0; j < k; j++ {
+			t := pick(j)
+			m.Form.Rets = append(m.Form.Rets, t)
+			m.Dyn = append(m.Dyn, t)
+			m.CFail = append(m.CFail, false)
+		}
+		switch g.n(4) {
+		case 0:
+			m.Name = 1 + g.n(2)
+		case 1:
+			m.Group = 1 + g.n(2)
+		}
+	}
+	outs := regOutputs(m)
+	var plain []ident
+	for _, id := range outs {
+		if id.group == 0 {
+			plain = append(plain, id)
+		}
+	}
+	var ops []Op
+	// something the newcomer and the consumer can depend on
+	base := &Reg{ID: g.nextRid, Life: Singleton, Form: Form{Kind: "ctor", Rets: []int{tys[7]}}, Dyn: []int{tys[7]}, CFail: []bool{false}}
+	g.nextRid++
+	ops = append(ops, Op{Kind: "add", Reg: base}, Op{Kind: "add", Reg: m})
+	nprov := 0
+	if g.p(0.4) {
+		ops = append(ops, Op{Kind: "build"})
+		nprov++
+	}
+	var victim *ident
+	replaced := false
+	if len(plain) > 0 && g.p(0.85) {
+		v := plain[g.n(len(plain))]
+		victim = &v
+		if v.name != 0 {
+			ops = append(ops, Op{Kind: "removekeyed", Ty: v.ty, Name: v.name}, Op{Kind: "containskeyed", Ty: v.ty, Name: v.name})
+		} else {
+			ops = append(ops, Op{Kind: "remove", Ty: v.ty}, Op{Kind: "contains", Ty: v.ty})
+		}
+		ops = append(ops, Op{Kind: "count"}, Op{Kind: "slice"})
+		if g.p(0.6) {
+			// the freed identity is taken by another constructor (the newcomer depends on something, so that it runs late)
+			nl := g.life([3]int{1, 2, 1})
+			if life == Singleton && g.p(0.7) {
+				nl = Singleton
+			}
+			n := &Reg{ID: g.nextRid, Life: nl, Form: Form{Kind: "ctor", Params: []Param{{Dep: Dep{Ty: tys[7]}}}, Rets: []int{v.ty}}, Dyn: []int{v.ty}, CFail: []bool{false}, Name: v.name}
+			g.nextRid++
+			ops = append(ops, Op{Kind: "add", Reg: n}, Op{Kind: "count"})
+			replaced = true
+		}
+	}
+	// a consumer of a sibling (and of the replaced identity, if any), never longer-lived than what it uses
+	if len(plain) > 1 && g.p(0.6) {
+		var ps []Param
+		for _, id := range plain {
+			if victim != nil && id == *victim && !replaced {
+				continue
+			}
+			if g.p(0.7) {
+				ps = append(ps, Param{Dep: Dep{Ty: id.ty, Name: id.name}})
+			}
+		}
+		for _, id := range outs {
+			if id.group != 0 && g.p(0.5) {
+				ps = append(ps, Param{Dep: Dep{Ty: id.ty, Group: id.group}})
+				break
+			}
+		}
+		cl := Transient
+		if life == Singleton && !replaced && g.p(0.5) {
+			cl = Singleton
+		}
+		c := &Reg{ID: g.nextRid, Life: cl, Form: Form{Kind: "ctor", InObj: true, Params: ps, Rets: []int{tys[6]}}, Dyn: []int{tys[6]}, CFail: []bool{false}, Name: 9}
+		g.nextRid++
+		ops = append(ops, Op{Kind: "add", Reg: c})
+		outs = append(outs, ident{tys[6], 9, 0})
+	}
+	ops = append(ops, Op{Kind: "build"})
+	nprov++
+	for p := 0; p < nprov; p++ {
+		ops = append(ops, Op{Kind: "createscope", P: p, Parent: 0})
+		order := g.rnd.Perm(len(outs))
+		for rep := 0; rep < 2; rep++ {
+			h := 1
+			if rep == 1 && g.p(0.5) {
+				h = 0
+			}
+			for _, k := range order {
+				id := outs[k]
+				if id.group != 0 {
+					ops = append(ops, Op{Kind: "resolvegroup", P: p, H: h, Ty: id.ty, Group: id.group})
+				} else {
+					ops = append(ops, Op{Kind: "resolve", P: p, H: h, Ty: id.ty, Name: id.name})
+				}
+			}
+		}
+	}
+	for p := 0; p < nprov; p++ {
+		if g.p(0.7) {
+			ops = append(ops, Op{Kind: "close", P: p, H: 1})
+		}
+		ops = append(ops, Op{Kind: "closeprovider", P: p})
+	}
+	return Group{Cases: []Case{{Name: fmt.Sprintf("%d/multi-out", i), Ops: ops}}}
+}
+
+// aliasAfterBuildCase: a registration under two As interfaces, a Build, then one interface removed from the
+// collection (and sometimes taken by another constructor): the built provider still shares one instance
+// between both interfaces, a provider built afterwards sees the change.
+func (g *Gen) aliasAfterBuildCase(i int) Group {
+	ifs := g.rnd.Perm(4)
+	a, b := 16+ifs[0], 16+ifs[1]
+	life := g.life([3]int{1, 3, 1})
+	dyn := g.n(16)
+	s := &Reg{ID: g.nextRid, Life: life, Form: Form{Kind: "ctor", Rets: []int{dyn}}, Dyn: []int{dyn}, CFail: []bool{false}, As: []int{a, b}}
+	g.nextRid++
+	ops := []Op{{Kind: "add", Reg: s}, {Kind: "build"}, {Kind: "remove", Ty: a}, {Kind: "contains", Ty: a}, {Kind: "count"}}
+	if g.p(0.5) {
+		d2 := g.n(16)
+		n := &Reg{ID: g.nextRid, Life: g.life([3]int{1, 2, 1}), Form: Form{Kind: "ctor", Rets: []int{d2}}, Dyn: []int{d2}, CFail: []bool{false}, As: []int{a}}
+		g.nextRid++
+		ops = append(ops, Op{Kind: "add", Reg: n})
+	}
+	ops = append(ops, Op{Kind: "build"})
+	for p := 0; p < 2; p++ {
+		ops = append(ops, Op{Kind: "createscope", P: p, Parent: 0})
+		first, second := b, a
+		if g.p(0.5) {
+			first, second = a, b
+		}
+		ops = append(ops, Op{Kind: "resolve", P: p, H: 1, Ty: first}, Op{Kind: "resolve", P: p, H: 1, Ty: second},
+			Op{Kind: "resolve", P: p, H: 1, Ty: first}, Op{Kind: "resolve", P: p, H: 0, Ty: second})
+	}
+	ops = append(ops, Op{Kind: "closeprovider", P: 0}, Op{Kind: "closeprovider", P: 1})
+	// the twin: no change after the first Build, the first provider used in the same way
+	var twin []Op
+	built := false
+	for _, o := range ops {
+		switch o.Kind {
+		case "add", "remove", "contains", "count":
+			if built {
+				continue
+			}
+		case "build":
+			if built {
+				continue
+			}
+			built = true
+		default:
+			if o.P != 0 {
+				continue
+			}
+		}
+		twin = append(twin, o)
+	}
+	return Group{Kind: "snapshot-twins", Cases: []Case{{Name: fmt.Sprintf("%d/alias-after-build", i), Ops: ops}, {Name: fmt.Sprintf("%d/alias-after-build-twin", i), Ops: twin}}}
+}
+
+// snapshotTwins (C17, "a provider that has been built is unaffected by later changes to the collection"):
+// the same registrations, Build and provider history twice - once with removals, re-registrations and new
+// registrations interleaved after the Build, once without. The provider's part of both traces must be
+// equivalent (same results, isomorphic object graphs).
+func (g *Gen) snapshotTwins(i int) Group {
+	cfg := defaultCfg()
+	cfg.NRegs = 3 + g.n(5)
+	cfg.PMulti, cfg.PResult, cfg.PAs = 0.2, 0.2, 0.35
+	cfg.PGroup = 0.3
+	cfg.LifeWeights = [3]int{2, 4, 2}
+	regs := g.RegSet(cfg)
+	if g.p(0.3) {
+		regs = g.aliasGroupFamily(g.life([3]int{1, 2, 1}))
+	}
+	head := append(addOps(regs), Op{Kind: "build"})
+	h := defaultHist()
+	h.NOps = 14 + g.n(10)
+	h.MaxScopes = 3
+	h.PCloseProv = 0
+	hist := g.History(regs, 0, h)
+	// the changes
+	var removable []ident
+	for _, r := range regs {
+		for _, id := range regOutputs(r) {
+			if id.group == 0 && id.ty != tVoid {
+				removable = append(removable, id)
+			}
+		}
+	}
+	var changes []Op
+	for k := 0; k < 2+g.n(4); k++ {
+		switch {
+		case len(removable) > 0 && g.p(0.6):
+			id := removable[g.n(len(removable))]
+			if id.name != 0 {
+				changes = append(changes, Op{Kind: "removekeyed", Ty: id.ty, Name: id.name})
+			} else {
+				changes = append(changes, Op{Kind: "remove", Ty: id.ty})
+			}
+			if g.p(0.5) {
+				d := id.ty
+				if d >= 16 {
+					d = g.n(16)
+				}
+				n := &Reg{ID: g.nextRid, Life: g.life([3]int{1, 2, 1}), Form: Form{Kind: "ctor", Rets: []int{id.ty}}, Dyn: []int{d}, CFail: []bool{false}, Name: id.name}
+				g.nextRid++
+				changes = append(changes, Op{Kind: "add", Reg: n})
+			}
+		default:
+			t := g.n(16)
+			n := &Reg{ID: g.nextRid, Life: g.life([3]int{1, 2, 1}), Form: Form{Kind: "ctor", Rets: []int{t}}, Dyn: []int{t}, CFail: []bool{false}, Name: 5 + g.n(3), Group: 0}
+			if g.p(0.4) {
+				n.Name, n.Group = 0, 1+g.n(2) // a new member for a group the provider may hand out
+			}
+			g.nextRid++
+			changes = append(changes, Op{Kind: "add", Reg: n})
+		}
+	}
+	// interleave: the first change right after the Build, the others anywhere
+	with := append([]Op(nil), head...)
+	pos := make([]int, len(changes))
+	for k := range pos {
+		if k > 0 {
+			pos[k] = g.n(len(hist) + 1)
+		}
+	}
+	sort.Ints(pos)
+	ci := 0
+	for k := 0; k <= len(hist); k++ {
+		for ci < len(changes) && pos[ci] == k {
+			with = append(with, changes[ci])
+			ci++
+		}
+		if k < len(hist) {
+			with = append(with, hist[k])
+		}
+	}
+	without := append(append([]Op(nil), head...), hist...)
+	return Group{Kind: "snapshot-twins", Cases: []Case{{Name: fmt.Sprintf("%d/changed", i), Ops: with}, {Name: fmt.Sprintf("%d/unchanged", i), Ops: without}}}
 }
